@@ -2,7 +2,7 @@
    instantiated at Z for computation.  Shared by C13 (transforms), C12 (traversal), C18/C19.
    Column-vector convention: [mapply A v] is A.v ; [mmul A B] is A.B, so
    mapply (mmul A B) v = mapply A (mapply B v)  (B acts first). *)
-From Coq Require Import List ZArith Ring Bool.
+From Coq Require Import List ZArith Ring Bool Lia.
 Import ListNotations.
 
 Section MatRing.
@@ -133,6 +133,9 @@ Section MatRing.
   Definition affine (A : mat) : Prop := m30 A = 0 /\ m31 A = 0 /\ m32 A = 0 /\ m33 A = 1.
 
   (* ---- algebra *)
+  Ltac mred := cbv [mmul mid mzero mtrans mapply mget mset m00 m01 m02 m03 m10 m11 m12 m13 m20 m21 m22 m23
+                    m30 m31 m32 m33 point direction xyz lin_apply translation mcol3 mrow3 vadd vsub vscale
+                    vdot vcross affine] in *.
   Ltac vec_eq := repeat match goal with |- (_, _) = (_, _) => apply f_equal2 end.
   Lemma mat_ext : forall A B : mat,
     m00 A = m00 B -> m01 A = m01 B -> m02 A = m02 B -> m03 A = m03 B ->
@@ -142,17 +145,17 @@ Section MatRing.
   Proof. intros [] []; simpl; intros; subst; reflexivity. Qed.
 
   Lemma mmul_assoc : forall A B C, mmul (mmul A B) C = mmul A (mmul B C).
-  Proof. intros [] [] []; apply mat_ext; simpl; ring. Qed.
+  Proof. intros [] [] []; apply mat_ext; mred; ring. Qed.
   Lemma mmul_id_l : forall A, mmul mid A = A.
-  Proof. intros []; apply mat_ext; simpl; ring. Qed.
+  Proof. intros []; apply mat_ext; mred; ring. Qed.
   Lemma mmul_id_r : forall A, mmul A mid = A.
-  Proof. intros []; apply mat_ext; simpl; ring. Qed.
+  Proof. intros []; apply mat_ext; mred; ring. Qed.
   Lemma mapply_mmul : forall A B v, mapply (mmul A B) v = mapply A (mapply B v).
-  Proof. intros [] [] [[[x y] z] w]; simpl; vec_eq; ring. Qed.
+  Proof. intros [] [] [[[x y] z] w]; mred; vec_eq; ring. Qed.
   Lemma mapply_id : forall v, mapply mid v = v.
-  Proof. intros [[[x y] z] w]; simpl; vec_eq; ring. Qed.
+  Proof. intros [[[x y] z] w]; mred; vec_eq; ring. Qed.
   Lemma mtrans_mmul : forall A B, mtrans (mmul A B) = mmul (mtrans B) (mtrans A).
-  Proof. intros [] []; apply mat_ext; simpl; ring. Qed.
+  Proof. intros [] []; apply mat_ext; mred; ring. Qed.
   Lemma mtrans_involutive : forall A, mtrans (mtrans A) = A.
   Proof. intros []; reflexivity. Qed.
 
@@ -160,32 +163,30 @@ Section MatRing.
   Lemma mapply_point : forall A a, affine A ->
     mapply A (point a) = point (vadd (lin_apply A a) (translation A)).
   Proof.
-    intros [] [[a0 a1] a2] (H0 & H1 & H2 & H3); simpl in *; subst; vec_eq; ring.
+    intros [] [[a0 a1] a2] (H0 & H1 & H2 & H3); mred; subst; vec_eq; ring.
   Qed.
   Lemma mapply_direction : forall A a, affine A ->
     mapply A (direction a) = direction (lin_apply A a).
   Proof.
-    intros [] [[a0 a1] a2] (H0 & H1 & H2 & H3); simpl in *; subst; vec_eq; ring.
+    intros [] [[a0 a1] a2] (H0 & H1 & H2 & H3); mred; subst; vec_eq; ring.
   Qed.
   (* ... and without the affinity hypothesis for the first three coordinates *)
   Lemma xyz_mapply_point : forall A a, xyz (mapply A (point a)) = vadd (lin_apply A a) (translation A).
-  Proof. intros [] [[a0 a1] a2]; simpl; vec_eq; ring. Qed.
+  Proof. intros [] [[a0 a1] a2]; mred; vec_eq; ring. Qed.
   Lemma xyz_mapply_direction : forall A a, xyz (mapply A (direction a)) = lin_apply A a.
-  Proof. intros [] [[a0 a1] a2]; simpl; vec_eq; ring. Qed.
+  Proof. intros [] [[a0 a1] a2]; mred; vec_eq; ring. Qed.
 
   Lemma affine_mid : affine mid.
   Proof. repeat split. Qed.
   Lemma affine_mmul : forall A B, affine A -> affine B -> affine (mmul A B).
   Proof.
-    intros [] [] (H0 & H1 & H2 & H3) (K0 & K1 & K2 & K3); simpl in *; subst; repeat split; simpl; ring.
+    intros [] [] (H0 & H1 & H2 & H3) (K0 & K1 & K2 & K3); mred; subst; repeat split; ring.
   Qed.
 
   Lemma mget_mset_same : forall A i j v, (i < 4)%nat -> (j < 4)%nat -> mget (mset A i j v) i j = v.
   Proof.
     intros A i j v Hi Hj.
-    destruct i as [|[|[|[|i]]]]; destruct j as [|[|[|[|j]]]]; try reflexivity;
-      exfalso; repeat apply Nat.succ_lt_mono in Hi; repeat apply Nat.succ_lt_mono in Hj;
-      solve [inversion Hi | inversion Hj].
+    destruct i as [|[|[|[|i]]]]; destruct j as [|[|[|[|j]]]]; try reflexivity; exfalso; lia.
   Qed.
   Lemma mat_of_to_list : forall A, mat_of_list (mat_to_list A) = A.
   Proof. intros []; reflexivity. Qed.
